@@ -149,6 +149,14 @@ def translate_source():
     except Exception as e:
         open(out14, 'w').write('/-! source-level translation of the base renderers failed on this tree -/\n')
         status['Str'] = 'untranslatable: translator failed (' + type(e).__name__ + ')'
+    # and the renderer of a configuration item
+    out15 = os.path.join(LEAN, 'UbxModel', 'Gen', 'SrcKeyStr.lean')
+    try:
+        r = sh([PY, os.path.join(ROOT, 'tools', 'pysrc2lean_keystr.py'), REPO, out15], timeout=120)
+        status['KeyStr'] = r.stdout.strip().splitlines()[-1]
+    except Exception as e:
+        open(out15, 'w').write('/-! source-level translation of CfgKeyData.__str__ failed on this tree -/\n')
+        status['KeyStr'] = 'untranslatable: translator failed (' + type(e).__name__ + ')'
     # and the frame registry
     out10 = os.path.join(LEAN, 'UbxModel', 'Gen', 'SrcFactory.lean')
     try:
@@ -189,6 +197,7 @@ SRC_THEOREMS = {
     'Fields': ['contains_iff', 'setitem_fresh', 'inv_init', 'fields_add', 'add_inv', 'addMany_inv', 'sorted_is_added', 'sorted_reachable', 'add_names', 'get_added',
                'setattr_field', 'setattr_other', 'setattr_early', 'getattr_field', 'getattr_other', 'getattr_missing', 'setitem_value_only', 'getattr_after_setattr'],
     'Str': ['item_str_named', 'item_str_total', 'fields_loop', 'frame_str_names', 'frame_str_total', 'frame_str_base'],
+    'KeyStr': ['low_and_ff', 'low_and_fff', 'header_low', 'keystr_eq'],
     'Factory': ['getitem_setitem', 'getitem_err', 'lookupR_register', 'agree_empty', 'fac_register', 'fac_build_with_data', 'fac_build'],
     'Gpsd': ['g_parse_version', 'g_devices_loop', 'g_parse_devices', 'g_line', 'g_lines', 'g_parse_gpsd_msg', 'absG_init', 'g_ready'],
     'Server': ['srv_check_poll', 'srv_check_ack_nak', 'srv_check_mga', 'srv_send', 'srv_wait', 'srv_set', 'srv_set_mga',
